@@ -31,6 +31,14 @@ re-assembly.  Unit kinds:
           function results, ?:, comma and chained assignments), sizes around the byte-loop/memcpy and
           index-scale thresholds (1..9, 12..17, 31..33, 63..65, 127..129, 255..257, 300, 1000); the
           arrays are refilled before and hashed after every statement.
+  pun     an object of every scalar type (integers, float, double, pointer) written through its own type,
+          modified through a char / signed char / unsigned char lvalue (also memcpy and union members) and
+          read back - and the reverse orders - as pointer parameters that may or may not alias, parameters
+          and locals whose address is taken, struct members, array elements and globals.
+  sw      switch over every integer type: dense (jump table) and sparse (compare chain) case sets at 0,
+          2^7, 2^8, 2^15, 2^16, 2^31, 2^32, 2^32+k, 2^63, type min/max and negative values, default
+          present / absent / in the middle, fall-through, nested; run-time values are every case constant,
+          its neighbours and values with the same low 32, 16, 8 bits.
   ncast   narrowing casts whose result is consumed DIRECTLY (no store to an object of the target type): one
           source type per unit (float, double, long double and the integer types, cycled) to every target
           narrower than long (signed/unsigned char, char, short, unsigned short, int, unsigned), values
@@ -1364,6 +1372,137 @@ class Gen:
         return {"name": name, "kind": "ncast", "text": text, "expect": expect, "lean": [], "info": S}
 
 
+    # ------------------------------------------------------------------ objects modified through character-type lvalues
+    PUN_TYPES = ["int", "uint", "long", "ulong", "llong", "ullong", "short", "ushort", "char", "schar", "uchar", "float", "double", "ptr"]
+
+    def unit_pun(self, type_index):
+        """write an object through its own type, modify some of its bytes through a char / signed char /
+        unsigned char lvalue (or memcpy, or a union member), read it back through its own type, and the other
+        way round; locals whose address is taken, parameters, pointer parameters (the accesses may or may not
+        alias), struct members, array elements, globals.  Only character types, memcpy and unions are used:
+        they are the accesses C11 6.5p7 / 6.5.2.3 allow."""
+        r = self.r
+        name = self.uname()
+        tn = self.PUN_TYPES[type_index % len(self.PUN_TYPES)]
+        T = {"float": "float", "double": "double", "ptr": "void *"}.get(tn) or cspell(tn)
+        size = {"float": 4, "double": 8, "ptr": 8}.get(tn) or width(tn) // 8
+        UT = {1: "unsigned char", 2: "unsigned short", 4: "unsigned int", 8: "unsigned long"}[size]
+        glob = ["typedef %s %s_T; typedef %s %s_U;" % (T, name, UT, name),
+                "static %s_U %s_bits (%s_T x) { %s_U u; memcpy (&u, &x, sizeof (u)); return u; }" % (name, name, name, name),
+                "static %s_T %s_mk (%s_U u) { %s_T x; memcpy (&x, &u, sizeof (x)); return x; }" % (name, name, name, name),
+                "struct %s_S { char c; %s_T m; short s; %s_T a[2]; };" % (name, name, name),
+                "union %s_N { %s_T t; unsigned char b[%d]; signed char sb[%d]; char cb[%d]; %s };" % (
+                    name, name, size, size, size, "unsigned short h[%d];" % (size // 2) if size >= 2 else "unsigned char h[1];"),
+                "static %s_T %s_g; static struct %s_S %s_gs;" % (name, name, name, name)]
+        body = ["  volatile %s_U v1 = %s, v2 = %s; volatile int k = %d, k2 = %d; volatile unsigned char vb = %d, vb2 = %d; %s_T x_, y_; struct %s_S s_; %s_T arr_[3];"
+                % (name, clit("ullong", r.next() & ((1 << 8 * size) - 1))[:-3] + "u" if size < 8 else clit("ulong", r.next()),
+                   clit("ullong", r.next() & ((1 << 8 * size) - 1))[:-3] + "u" if size < 8 else clit("ulong", r.next()),
+                   r.below(size), r.below(size), 1 + r.below(255), r.below(256), name, name, name),
+                "  memset (&s_, 0, sizeof (s_)); memset (arr_, 0, sizeof (arr_)); x_ = %s_mk (v1); y_ = %s_mk (v2);" % (name, name)]
+        n = 0
+        for CT, cn in (("char", "c"), ("signed char", "s"), ("unsigned char", "u")):
+            f = "%s_%s" % (name, cn)
+            # pointer parameters: store via T*, store via CT*, reload via T*  (+ the reverse order, + read of the byte)
+            glob.append("static %s_U %s_p1 (%s_T *x, %s *p, int i, %s_T v, unsigned char b) { *x = v; p[i] = (%s) b; return %s_bits (*x); }" % (name, f, name, CT, name, CT, name))
+            glob.append("static %s_U %s_p2 (%s_T *x, %s *p, int i, %s_T v, unsigned char b) { p[i] = (%s) b; *x = v; return (unsigned char) p[i]; }" % (name, f, name, CT, name, CT))
+            glob.append("static %s_U %s_p3 (%s_T *x, %s *p, int i, %s_T v, %s_T w, unsigned char b) { %s_U r_; *x = v; r_ = (unsigned char) p[i]; *x = w; r_ = r_ * 256 + (unsigned char) p[i]; p[i] ^= (%s) b; return r_ ^ %s_bits (*x); }"
+                        % (name, f, name, CT, name, name, name, CT, name))
+            glob.append("static %s_U %s_p4 (%s_T *x, %s *p, int n, %s_T v) { int i; %s_U r_ = 0; for (i = 0; i < n; i++) { *x = v; p[i] = (%s) (p[i] + i + 1); r_ = r_ * 3 + %s_bits (*x); v = *x; } return r_; }"
+                        % (name, f, name, CT, name, name, CT, name))
+            # parameter and local whose address is taken
+            glob.append("static %s_U %s_q1 (%s_T x, int i, unsigned char b) { %s *p = (%s *) &x; p[i] = (%s) b; return %s_bits (x); }" % (name, f, name, CT, CT, CT, name))
+            glob.append("static %s_U %s_q2 (%s_T v, int i, unsigned char b) { %s_T x = v; %s *p = (%s *) &x; %s_U r_; p[i] = (%s) b; r_ = %s_bits (x); x = v; p[i] = (%s) (p[i] + 1); return r_ ^ (%s_bits (x) << 1); }"
+                        % (name, f, name, name, CT, CT, name, CT, name, CT, name))
+            glob.append("static %s_U %s_q3 (%s_T v, int i) { %s_T x = v; return (unsigned char) ((%s *) &x)[i]; }" % (name, f, name, name, CT))
+            # struct member, array element, global
+            glob.append("static %s_U %s_m1 (struct %s_S *s, int i, %s_T v, unsigned char b) { s->m = v; ((%s *) &s->m)[i] = (%s) b; s->a[1] = s->m; ((%s *) s->a)[sizeof (%s_T) + i] ^= (%s) 0x55; return %s_bits (s->m) ^ (%s_bits (s->a[1]) << 1); }"
+                        % (name, f, name, name, CT, CT, CT, name, CT, name, name))
+            glob.append("static %s_U %s_a1 (%s_T *a, int j, int i, %s_T v, unsigned char b) { a[j] = v; ((%s *) a)[j * sizeof (%s_T) + i] = (%s) b; return %s_bits (a[j]); }"
+                        % (name, f, name, name, CT, name, CT, name))
+            glob.append("static %s_U %s_g1 (int i, %s_T v, unsigned char b) { %s *p = (%s *) &%s_g; %s_g = v; p[i] = (%s) b; return %s_bits (%s_g); }"
+                        % (name, f, name, CT, CT, name, name, CT, name, name))
+            calls = [("p1", "%s_p1 (&x_, (%s *) &x_, k, y_, vb)" % (f, CT)), ("p1n", "%s_p1 (&x_, (%s *) &y_, k, y_, vb)" % (f, CT)),
+                     ("p2", "%s_p2 (&x_, (%s *) &x_, k, y_, vb)" % (f, CT)), ("p3", "%s_p3 (&x_, (%s *) &x_, k2, %s_mk (v1), y_, vb2)" % (f, CT, name)),
+                     ("p4", "%s_p4 (&x_, (%s *) &x_, %d, %s_mk (v2))" % (f, CT, size, name)),
+                     ("q1", "%s_q1 (%s_mk (v1), k, vb)" % (f, name)), ("q2", "%s_q2 (%s_mk (v2), k2, vb2)" % (f, name)), ("q3", "%s_q3 (%s_mk (v1), k)" % (f, name)),
+                     ("m1", "%s_m1 (&s_, k, %s_mk (v1), vb)" % (f, name)), ("m1g", "%s_m1 (&%s_gs, k2, %s_mk (v2), vb2)" % (f, name, name)),
+                     ("a1", "%s_a1 (arr_, %d, k, %s_mk (v1), vb)" % (f, r.below(3), name)), ("g1", "%s_g1 (k, %s_mk (v2), vb)" % (f, name))]
+            for sfx, c in calls:
+                body.append('  PU ("%s.%s.%s", %s); PU ("%s.%s.%s.x", %s_bits (x_));' % (name, cn, sfx, c, name, cn, sfx, name))
+            # in-line in this function too (locals x_, y_ have their address taken above)
+            body.append('  { %s *p = (%s *) &x_; x_ = %s_mk (v1); p[k] = (%s) vb; PU ("%s.%s.i1", %s_bits (x_)); x_ = %s_mk (v2); PU ("%s.%s.i2", (unsigned char) p[k2]); p[k2]++; PU ("%s.%s.i3", %s_bits (x_)); }'
+                        % (CT, CT, name, CT, name, cn, name, name, name, cn, name, cn, name))
+        # memcpy and union members
+        glob.append("static %s_U %s_mc (%s_T *x, int i, %s_T v, unsigned char b) { unsigned char buf[sizeof (%s_T)]; *x = v; memcpy ((char *) x + i, &b, 1); memcpy (buf, x, sizeof (buf)); buf[0] ^= 1; *x = v; memcpy (x, buf, sizeof (buf)); return %s_bits (*x); }"
+                    % (name, name, name, name, name, name))
+        glob.append("static %s_U %s_un (union %s_N *u, int i, %s_T v, unsigned char b) { %s_U r_; u->t = v; u->b[i] = b; r_ = %s_bits (u->t); u->t = v; u->sb[i] = (signed char) b; r_ ^= %s_bits (u->t) << 1; u->t = v; u->cb[i] ^= (char) b; u->h[i / 2 %% %d] += 3; return r_ ^ (%s_bits (u->t) << 2); }"
+                    % (name, name, name, name, name, name, name, max(1, size // 2), name))
+        body.append('  { union %s_N u_; memset (&u_, 0, sizeof (u_)); PU ("%s.mc", %s_mc (&x_, k, y_, vb)); PU ("%s.un", %s_un (&u_, k2, %s_mk (v1), vb2)); }' % (name, name, name, name, name, name))
+        text = "\n".join(glob) + "\nstatic void %s (void) {\n%s\n}\n" % (name, "\n".join(body))
+        return {"name": name, "kind": "pun", "text": text, "expect": {}, "lean": [], "info": tn}
+
+    # ------------------------------------------------------------------ switch over every integer type
+    SW_TYPES = ["int", "uint", "long", "ulong", "llong", "ullong", "short", "ushort", "char", "schar", "uchar"]
+
+    def unit_sw(self, type_index):
+        r = self.r
+        name = self.uname()
+        t = self.SW_TYPES[type_index % len(self.SW_TYPES)]
+        pt = promote(t)
+        T = cspell(t)
+        marks = [0, 1, -1, 2 ** 7 - 1, 2 ** 7, 2 ** 8 - 1, 2 ** 8, 2 ** 15 - 1, 2 ** 15, 2 ** 16 - 1, 2 ** 16, 2 ** 31 - 1, 2 ** 31, 2 ** 31 + 1,
+                 2 ** 32 - 1, 2 ** 32, 2 ** 32 + 1, 2 ** 32 + 5, 3 * 2 ** 32 + 1, 2 ** 33, 2 ** 63 - 1, 2 ** 63, 2 ** 63 + 1, 2 ** 64 - 1,
+                 -2 ** 7, -2 ** 15, -2 ** 31, -2 ** 31 - 1, -2 ** 32, -2 ** 32 + 1, -2 ** 63, -2 ** 63 + 1, 1000, 5]
+        inr = sorted({m for m in marks if tmin(t) <= m <= tmax(t)})          # representable in the controlling type
+        glob, body = [], []
+        tests = set()
+        nf = 0
+
+        def func(cases, default, dflt_pos, fall):
+            """cases: distinct values of type t"""
+            nonlocal nf
+            fn = "%s_f%d" % (name, nf); nf += 1
+            lines = ["static int %s (%s x) {" % (fn, T), "  int r_ = 0;", "  switch (%s) {" % r.choice(["x", "x", "x + 0", "(%s) x" % T])]
+            items = [("case %s:" % clit(pt, c), 10 + i) for i, c in enumerate(cases)]
+            if default:
+                items.insert(min(dflt_pos, len(items)), ("default:", -1))
+            for lab, val in items:
+                lines.append("  %s r_ += %d;%s" % (lab, val * 7 + 1, "" if (fall and r.chance(1, 4)) else " break;"))
+            lines += ["  }", "  return r_;", "}"]
+            glob.append("\n".join(lines))
+            vals = set()
+            for c in cases:
+                for d in (0, 1, -1, 2 ** 32, -2 ** 32, 2 ** 31, 2 ** 16, 2 ** 8, 2 ** 33 + 0, 5 * 2 ** 32):
+                    vals.add(conv(t, c + d))
+                    if width(t) == 64: vals.add(conv(t, (c % 2 ** 32) + d * 3))      # same low 32 bits, other high half
+            for m in r.choice([inr, inr[::2], inr[1::2]]):
+                vals.add(m)
+            vals = sorted(vals)
+            glob.append("static volatile %s %s_v[] = { %s };" % (T, fn, ", ".join(clit(t, v) for v in vals)))
+            body.append('  { int i_; for (i_ = 0; i_ < %d; i_++) PS ("%s", %s (%s_v[i_])); }' % (len(vals), fn, fn, fn))
+
+        # dense sets (jump table) at several bases, sparse sets (compare chain) of boundary constants
+        bases = [b for b in (0, -3, 2 ** 31 - 4, 2 ** 32 - 3, 2 ** 32, 2 ** 63 - 5, 2 ** 63 - 2, -2 ** 31 - 3, tmax(t) - 7, tmin(t), 100, 2 ** 15 - 3, 2 ** 7 - 4)
+                 if tmin(t) <= b and b + 9 <= tmax(t)]
+        for b in [bases[0]] + [r.choice(bases) for _ in range(2)]:
+            n = 4 + r.below(6)
+            cs = [b + i for i in range(n) if not r.chance(1, 8)]
+            func(cs, r.chance(3, 4), r.below(n + 1), r.chance(1, 2))
+        for _ in range(3):
+            k = 2 + r.below(6)
+            cs = sorted({r.choice(inr) for _ in range(k)} | {c for c in (r.choice(inr) + r.below(3) for _ in range(2)) if tmin(t) <= c <= tmax(t)})
+            r2 = list(cs)
+            if r.chance(1, 2): r2.reverse()
+            func(r2, r.chance(3, 4), r.below(len(r2) + 1), r.chance(1, 3))
+        # nested switch + switch on a wider expression of the value
+        glob.append("static int %s_n (%s x, %s y) { switch (x) { case %s: switch (y) { case %s: return 1; case %s: return 2; default: return 3; } case %s: return 4; } return 5; }"
+                    % (name, T, T, clit(pt, inr[0]), clit(pt, inr[-1]), clit(pt, inr[len(inr) // 2]), clit(pt, inr[-1])))
+        body.append('  { volatile %s a_ = %s, b_ = %s, c_ = %s; PS ("%s.n", %s_n (a_, b_) * 100 + %s_n (a_, c_) * 10 + %s_n (b_, a_)); }' % (
+            T, clit(t, inr[0]), clit(t, inr[-1]), clit(t, inr[len(inr) // 2]), name, name, name, name))
+        text = "\n".join(glob) + "\nstatic void %s (void) {\n%s\n}\n" % (name, "\n".join(body))
+        return {"name": name, "kind": "sw", "text": text, "expect": {}, "lean": [], "info": t}
+
+
 def assemble(units):
     src = [PRELUDE]
     for u in units:
@@ -1378,8 +1517,8 @@ def assemble(units):
 def gen_program(rng, index, pair_cursor):
     """one program: a mix of units; `pair_cursor` walks through the 144 type pairs"""
     g = Gen(rng)
-    kinds = [["conv", "conv", "cexpr", "ctrl", "fcexpr"], ["bitf", "bitf", "init", "cexpr", "saddr", "ncast"],
-             ["scopy", "calls", "ctrl", "conv", "fcexpr"], ["conv", "bitf", "calls", "init", "saddr", "ncast"]][index % 4]
+    kinds = [["conv", "conv", "cexpr", "ctrl", "fcexpr", "pun"], ["bitf", "bitf", "init", "cexpr", "saddr", "ncast"],
+             ["scopy", "calls", "ctrl", "conv", "fcexpr", "sw"], ["conv", "bitf", "calls", "init", "saddr", "ncast"]][index % 4]
     units = []
     for k in kinds:
         if k == "conv":
@@ -1395,4 +1534,6 @@ def gen_program(rng, index, pair_cursor):
         elif k == "fcexpr": units.append(g.unit_fcexpr())
         elif k == "saddr": units.append(g.unit_saddr(index // 2))
         elif k == "ncast": units.append(g.unit_ncast(index // 2))
+        elif k == "pun": units.append(g.unit_pun(index // 4))
+        elif k == "sw": units.append(g.unit_sw(index // 4))
     return units
